@@ -129,6 +129,12 @@ def arm_facts(body):
                     f['ret_first'] = ast.unparse(v)
             if isinstance(x, ast.Assign) and len(x.targets) == 1 and isinstance(x.targets[0], ast.Name) and _const(x.value) is not None:
                 f['assign'][x.targets[0].id] = _const(x.value)
+            if isinstance(x, ast.Assign) and len(x.targets) == 1 and isinstance(x.targets[0], ast.Name) and isinstance(x.value, ast.Constant) \
+                    and isinstance(x.value.value, str) and f['fmt'] is None:
+                # an arm that only *chooses* the struct format (the unpack / pack with it stands after the dispatch)
+                import re as _re
+                if _re.fullmatch(r'[!<>=@]?[BHIQ]{1,2}', x.value.value):
+                    f['fmt'] = x.value.value
             if isinstance(x, ast.Raise):
                 f['raises'] = True
             if isinstance(x, ast.Call):
@@ -448,16 +454,20 @@ def compare_uint(tabs):
         rows = tab['rows']
         if n == 'UintField.parse_from':
             ok5 = len(rows) == 5
-            out.append((f'{n}: 4 widths + refusing default', n, 'NonNegativeInteger', ok5, f'{len(rows)} arms'))
-            if not ok5:
+            # (four arms without a default: the dispatch only chooses the format and the refusal of other widths stands after it - that part is
+            #  decided by the exploration of C07.TBL.1 over the Lengths 0..17, whatever the shape)
+            four = len(rows) == 4 and all(r_.get('cond', ('',))[0] == '==' for r_ in rows)
+            out.append((f'{n}: 4 widths + refusing default', n, 'NonNegativeInteger', ok5 or four, f'{len(rows)} arms'))
+            if not (ok5 or four):
                 continue
             for i, (limit, width, ch) in enumerate(SPEC_UINT):
                 r = rows[i]
                 out.append((f'arm {i} width tested', n, 'NonNegativeInteger', r['cond'] == ('==', width), f'{r["cond"]} vs == {width}'))
                 fm = r['facts']['fmt']
                 out.append((f'arm {i} format', n, 'NonNegativeInteger', fm is not None and fm.lstrip('!') == ch, f'{fm} vs !{ch}'))
-            out.append(('other widths refused', n, 'NonNegativeInteger', rows[4]['cond'] == ('else',) and rows[4]['facts']['raises'],
-                        'default arm raises' if rows[4]['facts']['raises'] else 'default arm does not raise'))
+            if ok5:
+                out.append(('other widths refused', n, 'NonNegativeInteger', rows[4]['cond'] == ('else',) and rows[4]['facts']['raises'],
+                            'default arm raises' if rows[4]['facts']['raises'] else 'default arm does not raise'))
             continue
         ok4 = len(rows) == 4
         out.append((f'{n}: 4 arms', n, 'NonNegativeInteger', ok4, f'{len(rows)} arms'))
